@@ -242,10 +242,12 @@ def _labels(rng, n):
 def _run_blaze_case(c, case):
     from irispie.incidences import blazer
     im = np.array(case["im"], dtype=bool)
+    # the same 0/1 matrix may be handed over as integers (calculate_incidence_matrix(..., data_type=int)); the case hash decides
+    dt = (bool, int, np.uint8)[sum(sum(r) for r in case["im"]) % 3] if case.get("vary_dtype", True) else bool
     with c.running(case):
         try:
             with rt.quiet():
-                blazer.blaze(im, case.get("eids"), case.get("qids"))
+                blazer.blaze(im.astype(dt), case.get("eids"), case.get("qids"))
         except Exception as exc:
             sq = im.shape[0] == im.shape[1]
             if sq and graph.has_perfect_matching(im):
